@@ -15,6 +15,10 @@ CORPUS = [
     "cg TOTP 0 alice ssh ok POST none 1 none auth:ok:ok:ok:past:future:2:alice none 1",
     "cg TOTP 0 alice ssh ok POST none 1 none auth:ok:ok:ok:past:future:66:alice none 1",
     "cg - 0 alice ssh ok POST none 1 none auth:ok:ok:ok:past:future:10:alice none 1",
+    # genuine first, forged second: the same claims, signed by a key that is not the deployment's
+    "cg TOTP 0 alice ssh ok POST none 1 none auth:ok:ok:ok:past:future:66:alice none 1",
+    "cg TOTP 0 alice ssh ok POST none 1 none auth:foreign:ok:ok:past:future:66:alice none 1",
+    "cg TOTP 0 alice x509 ok POST none 1 none auth:foreign:ok:ok:past:future:66:alice none 1",
     "cg password 1 alice ssh ok POST none 1 none auth:ok:ok:ok:past:future:10:alice none 1",
 ]
 
